@@ -77,7 +77,7 @@ impl SerOpts {
             yaml12: bits & 64 != 0,
             block: bits & 128 == 0,
             tagged: bits & 256 != 0,
-            wrap: [80, 1, 8, 20][((bits >> 9) & 3) as usize],
+            wrap: [80, 1, 8, 0][((bits >> 9) & 3) as usize],
             min_fold: [32, 0, 4, 100][((bits >> 11) & 3) as usize],
             anchors: bits & (1 << 13) != 0,
         }
